@@ -126,6 +126,11 @@ func (w *watches) updatePath(path string, f func(*watch) (*watch, error)) error 
 
 		if upd.wd != wd {
 			delete(w.wd, wd)
+			// The path now refers to a file that's already watched under
+			// another path: that entry is kept, and this one is gone.
+			if ok && upd.path != path {
+				delete(w.path, path)
+			}
 		}
 	}
 
@@ -266,6 +271,13 @@ func (w *inotify) register(path string, flags uint32, recurse bool) error {
 		wd, err := unix.InotifyAddWatch(w.fd, path, flags)
 		if wd == -1 {
 			return nil, err
+		}
+
+		// The path was already watched but now refers to a different file
+		// (e.g. it was replaced and the old file is still linked or opened
+		// somewhere): release the watch on the old file.
+		if existing != nil && existing.wd != uint32(wd) {
+			_, _ = unix.InotifyRmWatch(w.fd, existing.wd)
 		}
 
 		if e, ok := w.watches.wd[uint32(wd)]; ok {
